@@ -626,3 +626,9 @@ pub fn random_bias_max(rng: &mut Rng) -> (u32, u32) {
         _ => (u32::MAX - (rng.u32() >> rng.below(32).max(8)), u32::MAX - rng.below(3) as u32),
     }
 }
+
+/// Library side of the decode comparison without a `Ctx` (members as intervals, length,
+/// unread remainder); used by the libFuzzer target `c14_sbs` in /verif/harness/fuzz.
+pub fn lib_decode_bounded(data: &[u8], bias: u32, max: u32) -> Option<(Iv, u64, Vec<u8>)> {
+    IntSet::<u32>::from_sparse_bit_set_bounded(data, bias, max).ok().map(|(s, rest)| (set_to_iv(&s), s.len(), rest.to_vec()))
+}
